@@ -130,6 +130,9 @@ func setInlinePolicy(w *World) {
 		if callee.Parent() != nil {
 			return false // closures are analysed where they are created
 		}
+		if callee.Synthetic != "" {
+			return false // wrappers (bound methods, thunks) stand for the method they call
+		}
 		return !knownFuncs[w.funcKey(callee)]
 	}
 }
